@@ -103,13 +103,34 @@ def engine(prog):
 
 def check_comparator(rep, rule, eng, f, mode):
     rep.functions.add(f.qual)
+    pn = f.param_names()
+    if mode == "both" and len(pn) >= 3:
+        # the shared builder is partially evaluated for its two uses: state comparator (None) and two-variable comparator (Some)
+        ok = True
+        for sub_mode, val in (("state", ("ctor", E.NONE, ())), ("two", ("ctor", E.SOME, (("param", "#other"),)))):
+            try:
+                sp = eng.specialise(f, {pn[2]: val})
+            except Exception:
+                sp = None
+            if sp is None:
+                ok = False
+                break
+            check_comparator_summary(rep, rule, f, sp, sub_mode, key=f"{f.name}[{sub_mode}]", other=("param", "#other"))
+        if ok:
+            return
     s = eng.summary(f)
+    check_comparator_summary(rep, rule, f, s, mode, key=f.name)
+
+
+def check_comparator_summary(rep, rule, f, s, mode, key, other=None):
     where = f"{f.file}:{f.line}"
     pn = f.param_names()
     g = P(pn[0])
     problems = []
     alg = setalg.Alg()
     need = 2 if mode == "both" else 1
+    if other is not None:
+        need = 1
     if not alg.equivalent(alg.interp(s.ret), ("and", alg.interp(s.ret), alg.interp(S.UNIT(g)))):
         problems.append("the comparator is not intersected with the unit set")
     iffs = calls(s.ret, "iff")
@@ -134,7 +155,8 @@ def check_comparator(rep, rule, eng, f, mode):
             lits = [p_ for p_ in pieces if isinstance(p_, str)]
             if lits == ["_extra_"] and len(args) == 2 and name_index_ok(args[1][1], pn[1]):
                 own = True
-            elif lits == ["_extra_"] and len(args) == 2 and len(pn) > 2 and (name_index_ok(args[1][1], pn[2]) or name_index_of_payload(args[1][1], pn[2])):
+            elif lits == ["_extra_"] and len(args) == 2 and len(pn) > 2 and (name_index_ok(args[1][1], pn[2]) or name_index_of_payload(args[1][1], pn[2])
+                                                               or (other is not None and name_index_of_term(args[1][1], other))):
                 others += 1
             if len(args) == 2 and not (args[1][1][0] == "bin" and args[1][1][1] == "-" and args[1][1][3] == ("lit", 1)
                                        and args[1][1][2][0] == "call" and args[1][1][2][1].endswith("::len")):
@@ -148,8 +170,15 @@ def check_comparator(rep, rule, eng, f, mode):
     acc = [x for x in subterms(s.ret) if x[0] == "mu" and x[4][0] == "call" and x[4][1].endswith("::and") and ("loopvar", x[1], x[2]) in x[4][2]]
     if len(acc) < need:
         problems.append("conjuncts are not accumulated with `and`")
-    rep.check(not problems, rule, f.name, where,
+    rep.check(not problems, rule, key, where,
               "comparator = unit & AND_v (copy(name)_v <=> other_v), copy index = name.len() - 1", "; ".join(sorted(set(problems))))
+
+
+def name_index_of_term(t, name_term):
+    if t[0] != "bin" or t[1] != "-" or t[3] != ("lit", 1):
+        return False
+    l = t[2]
+    return l[0] == "call" and isinstance(l[1], str) and l[1].rsplit("::", 1)[-1] in ("len", "#len") and l[2] and l[2][0] == name_term
 
 
 def name_index_of_payload(t, name_param):
